@@ -181,6 +181,9 @@ def run(ctx):
         if cfg == ctx.cfgs[0]:
             for o in ctx.obligations[:8]:
                 ctx.sample({'rule': o['rule'], 'key': o['key'], 'status': o['status'], 'detail': o['detail'][:160]})
+    if ctx.tier == 'thorough':
+        import c05
+        c05._witness(ctx)
     return ctx.finish(EXPLANATION)
 
 
